@@ -63,7 +63,11 @@ func (c *kctx) ioShape(n *ast.IfStmt) (kind string, arg ast.Expr) {
 		return "", nil
 	}
 	ret, ok := n.Body.List[0].(*ast.ReturnStmt)
-	if !ok || len(ret.Results) != 1 || exprString(ret.Results[0]) != "ctx.Raise("+errName+")" {
+	ctxNm := c.ctxNm
+	if ctxNm == "" {
+		ctxNm = "ctx"
+	}
+	if !ok || len(ret.Results) != 1 || exprString(ret.Results[0]) != ctxNm+".Raise("+errName+")" {
 		return "", nil
 	}
 	switch {
@@ -379,6 +383,11 @@ func (c *kctx) stmts(list []ast.Stmt, k func(c *kctx) string) string {
 }
 
 func (c *kctx) assignStmt(n *ast.AssignStmt, rest []ast.Stmt, k func(c *kctx) string) string {
+	if c.ext != nil && c.ext.assign != nil {
+		if t, ok := c.ext.assign(c, n, rest, k); ok {
+			return t
+		}
+	}
 	var pre []kbind
 	var lets []string
 	switch n.Tok {
